@@ -201,6 +201,26 @@ def calls(cfgname):
         add("gets_many", [K2, k2])
         add("set_many", {k2: b"v", K2: b"w"}, noreply=False)
         add("delete_many", [k2], noreply=False)
+    # everything after the key by keyword, under the parameter names Client documents
+    for name in ("set", "add", "replace", "append", "prepend"):
+        add(name, key, value=b"v", expire=0, noreply=False, flags=3)
+    add("cas", key, value=b"v", cas=b"1", expire=0, noreply=False, flags=3)
+    add("incr", key, value=5, noreply=False)
+    add("decr", key, value=1, noreply=False)
+    add("incr", key, value=5)
+    add("set_many", values={key: b"v"}, expire=0, noreply=False, flags=3)
+    add("get_many", keys=[key, K2])
+    add("gets_many", keys=[key, K2])
+    add("delete_many", keys=[key, K2], noreply=False)
+    # arguments of the wrong type: every stack refuses (or accepts) them exactly as Client does
+    for bad in (29.7, "30", None, b"5", [5]):
+        add("touch", key, expire=bad, noreply=False)
+        add("set", key, b"v", expire=bad, noreply=False)
+        add("gat", key, expire=bad)
+        add("incr", key, bad, noreply=False)
+        add("decr", key, bad, noreply=False)
+        add("set", key, b"v", flags=bad, noreply=False)
+        add("cas", key, b"v", bad, noreply=False)
     # dict-style access where the class offers it
     out.append((f"obj[{key!r}] = b'v'", "__setitem__", (key, b"v"), {}))
     out.append((f"obj[{key!r}]", "__getitem__", (key,), {}))
